@@ -7,7 +7,7 @@ change in modelled code buys a deeper look, it never raises an alarm by itself.
 Run after every commit to /repo (tools/gen_manifest.py does it)."""
 import hashlib, json, os, subprocess
 ROOT = os.path.dirname(os.path.dirname(os.path.abspath(__file__)))
-REPO = "/repo"
+REPO = os.environ.get("VERIF_REPO", "/repo")   # a builder's clone while a round is in progress
 
 def main():
     head = subprocess.check_output(["git", "-C", REPO, "rev-parse", "HEAD"]).decode().strip()
